@@ -198,6 +198,54 @@ let run_rice id rest =
     Printf.sprintf "%s ok p=%d bits=%s" id (int_of_n p) (dec_of_n bits)
   | _ -> id ^ " bad-case"
 
+(* ---- FAIL: sink failing at call k ---- *)
+let call_token (o : Sink.op) : string =
+  match o with
+  | Sink.OAlign -> "A"
+  | Sink.OWrite (w, v) -> Printf.sprintf "W:%d:%s" (int_of_n w) (dec_of_n v)
+  | Sink.OMsbs (w, v, n) -> Printf.sprintf "M:%d:%s:%d" (int_of_n w) (dec_of_n v) (int_of_n n)
+  | Sink.OLsbs (w, v, n) -> Printf.sprintf "L:%d:%s:%d" (int_of_n w) (dec_of_n v) (int_of_n n)
+  | _ -> "?"
+
+let fnv_calls (calls : Sink.op list) : string =
+  let h = ref 0xcbf29ce484222325L in
+  let mulp x = Int64.mul x 0x100000001b3L in
+  Stdlib.List.iter (fun o ->
+    Stdlib.String.iter (fun c -> h := mulp (Int64.logxor !h (Int64.of_int (Char.code c)))) (call_token o);
+    h := mulp (Int64.logxor !h 0x20L)) calls;
+  Printf.sprintf "%016Lx" !h
+
+let run_fail id rest =
+  match Str.bounded_split (Str.regexp_string " ") rest 3 with
+  | [kspec; mode; r3] ->
+    let (main, orc) = match Str.bounded_split_delim (Str.regexp_string " |") r3 2 with
+      | [a; b] -> (a, Stdlib.String.trim b) | [a] -> (a, "") | _ -> failwith "fail case" in
+    if orc = "ORACLE-PANIC" then id ^ " oracle-panic" else
+    (match split_on ' ' main with
+     | [cfg; rate; ch; bps; bs; samples] ->
+       let cfg = parse_cfg cfg in
+       let (entf, qf, _) = parse_oracles (split_on ' ' orc) in
+       let n s = n_of_int (int_of_string s) in
+       (match Encoder.encode_stream entf qf md5_oracle cfg (n rate) (n ch) (n bps) (n bs) (parse_samples samples) with
+        | Ok s ->
+          let s = if mode = "m" then
+              { s with Component.s_frames = Stdlib.List.map (fun f -> match Component.precompute f with Ok f' -> f' | _ -> f) s.Component.s_frames }
+            else s in
+          (match Component.stream_ops s with
+           | Ok ops ->
+             let calls = FailSink.expand ops in
+             let total = Stdlib.List.length calls in
+             let k = if kspec.[0] = 'a' then int_of_string (Stdlib.String.sub kspec 1 (Stdlib.String.length kspec - 1))
+                     else total * int_of_string (Stdlib.String.sub kspec 1 (Stdlib.String.length kspec - 1)) / 1000 in
+             let (res, accepted) = FailSink.write_failing (nat_of_int k) ops in
+             let verdict = (match res with Ok _ -> "ok" | Err e -> if int_of_n e = 1 then "err-sink" else "err-other" | Panic _ -> "panic") in
+             let bits = (match Sink.user_run accepted with Ok b -> int_of_n b.Sink.blen_i | _ -> -1) in
+             Printf.sprintf "%s %s k=%d total=%d accepted=%d calls=%s bits=%d" id verdict k total (Stdlib.List.length accepted) (fnv_calls accepted) bits
+           | _ -> id ^ " ops-error")
+        | _ -> id ^ " enc-error")
+     | _ -> id ^ " bad-case")
+  | _ -> id ^ " bad-case"
+
 let run_line (line : string) : string =
   match split_on ' ' line with
   | stream :: id :: _ ->
@@ -211,6 +259,7 @@ let run_line (line : string) : string =
                    | [_mode; r2] -> run_enc id r2 | _ -> id ^ " bad-case")
        | "DEC" -> run_dec id rest
        | "CNT" -> run_cnt id rest
+       | "FAIL" -> run_fail id rest
        | "RICE" -> run_rice id rest
        | _ -> id ^ " unknown-stream")
      with Stack_overflow -> id ^ " model-stack-overflow")
